@@ -18,6 +18,18 @@ Proof.
   f_equal. lia.
 Qed.
 
+Lemma static_matches_firstn p (s : bytes) k :
+  p_off p = length (p_static p) -> p_off p + tag_len <= Nat.min k (length s) ->
+  static_matches p (firstn k s) = static_matches p s.
+Proof.
+  intros Hoff H. unfold static_matches. destruct (p_static p) as [|x st] eqn:E; [reflexivity|].
+  rewrite firstn_length.
+  replace (Nat.min (length (x :: st)) (Nat.min k (length s))) with (length (x :: st)) by lia.
+  replace (Nat.min (length (x :: st)) (length s)) with (length (x :: st)) by lia.
+  rewrite firstn_firstn. replace (Nat.min (length (x :: st)) k) with (length (x :: st)) by lia.
+  reflexivity.
+Qed.
+
 Section NoTag.
   Variable reveal : bytes -> list bytes.
   Variable mark : reginfo -> bytes -> bytes.
@@ -36,24 +48,27 @@ Section NoTag.
 
   Lemma classify_quiet p R s k :
     pfx_wfb p = true ->
-    (p_off p + tag_len <= length s -> first_reg (reveal (window p s)) R = None) ->
+    (p_off p + tag_len <= length s -> static_matches p s = true -> first_reg (reveal (window p s)) R = None) ->
     classify reveal p R (firstn k s) = PSkip \/ classify reveal p R (firstn k s) = PAgain.
   Proof.
     intros Hwf H. destruct (pfx_wfb_spec p Hwf) as [H1 [H2 H3]].
     unfold classify.
-    destruct (negb (static_matches p (firstn k s))); [now left|].
+    destruct (static_matches p (firstn k s)) eqn:Esm; cbn [negb]; [|now left].
     destruct (length (firstn k s) <? p_min p); [now right|].
     destruct ((length (firstn k s) <? p_off p + tag_len) && (length (firstn k s) <? p_max p)); [now right|].
     destruct (length (firstn k s) <? p_max p) eqn:E3; [now left|].
     apply Nat.ltb_ge in E3. rewrite firstn_length in E3.
     destruct (Nat.min k (length s) <? p_off p + tag_len) eqn:E4.
     - apply Nat.ltb_lt in E4. lia.
-    - rewrite firstn_length, E4. rewrite window_firstn by lia. rewrite H by lia. now left.
+    - rewrite firstn_length, E4. rewrite window_firstn by lia.
+      rewrite static_matches_firstn in Esm by lia.
+      rewrite H by (try lia; assumption). now left.
   Qed.
 
   Lemma prefix_quiet tbl R s k :
     prefix_table_wfb tbl = true ->
-    (forall p, In p tbl -> p_off p + tag_len <= length s -> first_reg (reveal (window p s)) R = None) ->
+    (forall p, In p tbl -> p_off p + tag_len <= length s -> static_matches p s = true ->
+               first_reg (reveal (window p s)) R = None) ->
     is_decisive (wrap_prefix reveal tbl R (firstn k s)) = false.
   Proof.
     intros Hwf H. unfold wrap_prefix.
@@ -98,7 +113,7 @@ Section NoTag.
     - apply obfs4_quiet. intros j Hj.
       destruct (not_none_dec (obfs4_hit mark R (firstn 32 s) (firstn j s))) as [E|E]; [exact E|].
       exfalso. apply Hno. right. right. exists j. auto.
-    - apply prefix_quiet; [assumption|]. intros p Hp Hl.
+    - apply prefix_quiet; [assumption|]. intros p Hp Hl Hsm.
       destruct (not_none_dec (first_reg (reveal (window p s)) R)) as [E|E]; [exact E|].
       exfalso. apply Hno. right. left. exists p. auto.
   Qed.
@@ -111,11 +126,12 @@ Section NoTag.
   Proof.
     unfold presents_tagb. intros H.
     apply Bool.orb_false_iff in H as [H H3]. apply Bool.orb_false_iff in H as [H1 H2].
-    intros [[Hl Hn] | [[p [Hp [Hl Hn]]] | [k [Hk Hn]]]].
+    intros [[Hl Hn] | [[p [Hp [Hl [Hsm Hn]]]] | [k [Hk Hn]]]].
     - apply Nat.leb_le in Hl. rewrite Hl in H1. cbn in H1. apply is_some_false in H1. contradiction.
-    - assert (E : existsb (fun p => (p_off p + tag_len <=? length s) && is_some (first_reg (reveal (window p s)) R)) tbl = true).
+    - assert (E : existsb (fun p => (p_off p + tag_len <=? length s) && static_matches p s &&
+                                    is_some (first_reg (reveal (window p s)) R)) tbl = true).
       { apply existsb_exists. exists p. split; [assumption|].
-        apply Nat.leb_le in Hl. rewrite Hl. cbn. destruct (first_reg _ _); [reflexivity|contradiction]. }
+        apply Nat.leb_le in Hl. rewrite Hl, Hsm. cbn. destruct (first_reg _ _); [reflexivity|contradiction]. }
       congruence.
     - assert (E : existsb (fun k => is_some (obfs4_hit mark R (firstn 32 s) (firstn k s))) (seq 0 (S (length s))) = true).
       { apply existsb_exists. exists k. split; [apply in_seq; lia|].
